@@ -17,11 +17,11 @@ def num_machines_of(jobs) -> int:
 
 def dispatch_scenario(rng: random.Random, *, family=None, with_invalid=True, stop_early=True,
                       replay=False, queries=False, max_jobs=4, max_machines=4, max_ops=4,
-                      flt="random") -> Scenario:
+                      flt="random", huge=True) -> Scenario:
     """new / inst / filter / a random valid dispatch history with `snap` after every accepted dispatch,
     invalid requests injected at random positions, optionally reset + replay of the accepted history."""
     family, jobs = gen.gen_instance(rng, family, max_jobs=max_jobs, max_machines=max_machines, max_ops=max_ops)
-    if rng.random() < 0.05:
+    if huge and rng.random() < 0.05:
         jobs, family = gen.make_huge(rng, jobs), family + "+huge"
     f = gen.gen_filter(rng) if flt == "random" else flt
     style = rng.choice(["uniform", "uniform", "one_job_first", "last_job_first"])
